@@ -170,6 +170,8 @@ type FuncVC struct {
 	params     map[string]Val
 	streamAppend func(r, d, x Term, xv ssa.Value, pos token.Pos)
 	inGlobalInv bool
+	lenient bool
+	inert bool
 	replayTemplate string
 	replayArgs []replayArg
 	results    []Val
@@ -311,11 +313,6 @@ func (fv *FuncVC) sortOf(t types.Type) Sort {
 	s := sortOfType(t)
 	switch s.Kind {
 	case KStruct:
-		if opaqueStruct(t) {
-			s = Sort{Kind: KOpaque, Name: structName(t)}
-			fv.ensureSort(s)
-			return s
-		}
 		fv.ensureStruct(t)
 	case KSlice:
 		fv.sortOf(t.Underlying().(*types.Slice).Elem())
